@@ -302,6 +302,8 @@ func spec_any[T any](p func(T) bool) bool               { panic("ghost: unbounde
 func spec_fresh(p any) bool                             { panic("ghost: allocation predicate") }
 // spec_existed(p): the object p refers to already existed when the function under verification was entered.
 func spec_existed(p any) bool { panic("ghost: allocation predicate") }
+// spec_zeroValue(p): p was allocated by reflect.New and nothing has been stored into it through reflection since: it holds the zero value of its type (ghost).
+func spec_zeroValue(p any) bool { panic("ghost: zero-value predicate") }
 func spec_assert(c bool) {
 	if !c {
 		panic("ghost assertion failed")
